@@ -69,6 +69,17 @@ Fixpoint split_by {A} (lens : list nat) (l : list A) : list (list A) :=
   | k :: t => firstn k l :: split_by t (skipn k l)
   end.
 
+(* GenLayout(objects, cutIndices): row i takes the objects from the running index up to cutIndices[i]
+   (the last row up to len-1); a cut at or before the running index gives an empty row.
+   [ends] are the exclusive ends cut+1, [t] the running index. *)
+Fixpoint gen_rows {A} (objs : list A) (t : nat) (ends : list nat) : list (list A) :=
+  match ends with
+  | [] => []
+  | e :: r => firstn (e - t) (skipn t objs) :: gen_rows objs (Nat.max t e) r
+  end.
+Definition gen_layout {A} (objs : list A) (cuts : list nat) : list (list A) :=
+  gen_rows objs 0 (map S cuts ++ [length objs]).
+
 (* ---------- placement shared by both layouts (row-directed form) ---------- *)
 (* one row: cursor.X runs from 0, every cell gets the row height *)
 Fixpoint place_row (gap x y h : Q) (ws : list Q) : list box :=
